@@ -46,9 +46,66 @@ func (*Scanner).advance [C13, C03]
   ensures s.cur == old(s.cur) + old(curWidth(s)) && s.cur > old(s.cur)
   ensures s.column == old(s.column) + 1
   ensures J(s)
+  // positions: an ordinary character keeps line/column in step; a line break does so together with increaseLineBeforeAdvance
+  ensures old(P(s)) && old(curRune(s)) != 10 ==> P(s)
+  ensures old(curRune(s)) == 10 && old(s.line) == lineAt(s, old(s.cur)) + 1 && old(s.column) == 0 ==> P(s)
 
 // summary used by callers: scanning may report through the handler it was given and allocates the token slice
 func Scan
   trusted
   modifies *
+
+// ---- line / column accounting in code points ----
+// lineAt(s, i) / colAt(s, i): line and column of the code point starting at byte offset i
+spec lineAt(s *Scanner, i int) int
+spec colAt(s *Scanner, i int) int
+axiom pos_step: forall s *Scanner, i int ::
+  0 <= i && i < len(s.src) && utf8.validA(arr(s.src), off(s.src) + i, srcEnd(s)) ==>
+      lineAt(s, i + utf8.widthA(arr(s.src), off(s.src) + i)) == lineAt(s, i) + (utf8.runeA(arr(s.src), off(s.src) + i) == 10 ? 1 : 0)
+   && colAt(s, i + utf8.widthA(arr(s.src), off(s.src) + i)) == (utf8.runeA(arr(s.src), off(s.src) + i) == 10 ? 1 : colAt(s, i) + 1)
+// the scanner's line/column fields describe the current offset
+spec P(s *Scanner) bool := s.line == lineAt(s, s.cur) && s.column == colAt(s, s.cur)
+
+// blanks between tokens
+spec isBlank(r int) bool := r == 32 || r == 13 || r == 10 || r == 9
+spec allBlank(s *Scanner, i int, j int) bool
+axiom blank_refl: forall s *Scanner, i int :: allBlank(s, i, i)
+axiom blank_step: forall s *Scanner, i int, j int ::
+  allBlank(s, i, j) && j < len(s.src) && utf8.validA(arr(s.src), off(s.src) + j, srcEnd(s)) && isBlank(utf8.runeA(arr(s.src), off(s.src) + j))
+  ==> allBlank(s, i, j + utf8.widthA(arr(s.src), off(s.src) + j))
+
+func (*Scanner).increaseLineBeforeAdvance [C13]
+  safe
+  requires s != nil
+  modifies scanner.Scanner.line, scanner.Scanner.indent, scanner.Scanner.column, scanner.Scanner.shouldIndent
+  ensures s.line == old(s.line) + 1 && s.column == 0 && s.indent == 0 && s.shouldIndent
+
+func (*Scanner).aliasMode
+  inline
+func (*Scanner).strictCapitalizationMode
+  inline
+func (*Scanner).currentRange
+  inline
+
+// reporting a diagnostic does not touch the scanner
+func (*Scanner).err [C13]
+  requires s != nil
+  modifies parser.parser.errored
+
+func (*Scanner).newToken [C13, C03]
+  safe
+  requires J(s)
+  modifies scanner.Scanner.shouldCapitalize
+  ensures result.Type == tokenType && result.Indent == s.indent && result.AliasInfo == nil
+  ensures result.Literal == stringOf(subslice(s.src, s.start, s.cur))
+  ensures result.Range.Start.Line == s.startLine && result.Range.Start.Column == s.startColumn
+  ensures result.Range.End.Line == s.line && result.Range.End.Column == s.column
+
+func (*Scanner).errorToken [C13, C03]
+  safe
+  requires s != nil
+  modifies nothing
+  ensures result.Type == token.ILLEGAL && result.Literal == msg
+  ensures result.Range.Start.Line == s.startLine && result.Range.Start.Column == s.startColumn
+  ensures result.Range.End.Line == s.line && result.Range.End.Column == s.column
 @*/
